@@ -71,8 +71,8 @@ Print Assumptions C27_success_sound.
        backend replied NOT_LEADER_OR_FOLLOWER at attempt j-1 — never after a connection
        failure (before or after the send) or an undecodable reply; so every send of a
        partition but the last was refused, and at most one backend accepted it *)
-Theorem C27_resend_only_not_leader : forall E dial backend ord maxr routes rr req,
-  e_fetch E = false -> ord_ok ord ->
+Theorem C27_resend_only_not_leader : forall E, e_fetch E = false ->
+  forall dial backend ord maxr routes rr req, ord_ok ord ->
   forall e, In e (s_log (snd (forward E dial backend ord maxr routes rr req))) ->
   forall x, In x (sub_tps E (l_sub e)) ->
     l_attempt e = 0 \/
